@@ -21,7 +21,7 @@ type vC05Doc struct {
 var vC05Docs = []vC05Doc{
 	{Vec: []float32{1, 0}, Text: "a", S: "x", N: 5},
 	{Vec: []float32{0, 1}, Text: "a b", S: "y", N: 7},
-	{Vec: []float32{3, 4}, Text: "c", S: "x"},
+	{Vec: []float32{3, 4}, Text: "c ™", S: "x"}, // (™: compatibility form "TM", found as "tm")
 	{Vec: []float32{1, 0}},
 	{Text: "a"},
 	{S: "y"},
@@ -68,7 +68,7 @@ type vC05Sys struct {
 func newC05Sys(c *vCtx, cfg vC05Cfg, maxN int) *vC05Sys {
 	s := &vC05Sys{c: c, cfg: cfg, cfgS: cfg.String(), maxN: maxN}
 	vecs := [][]float32{nil, {1, 0.25}, {0, 2}, {1, 0}} // the last one equals a stored vector: distance exactly 0
-	texts := [][]string{nil, {"a"}, {"a b"}, {"z"}, {"a", "b"}}
+	texts := [][]string{nil, {"a"}, {"a b"}, {"z"}, {"a", "b"}, {"tm"}}
 	for _, v := range vecs {
 		for _, t := range texts {
 			for f := 0; f <= 6; f++ {
